@@ -1,5 +1,6 @@
 import LP.Props.C01
 import LP.Props.C01Deriv
+import LP.Props.C01Canon
 #print axioms LP.Mono.toFinsupp_norm
 #print axioms LP.MPoly.den_normalize
 #print axioms LP.MPoly.C01_add
@@ -18,3 +19,8 @@ import LP.Props.C01Deriv
 #print axioms LP.MPoly.C01_derivative
 #print axioms LP.C01_derivative_Z
 #print axioms LP.C01_derivative_ZMod
+#print axioms LP.Mono.lt_iff_toL
+#print axioms LP.Mono.canon_injective
+#print axioms LP.MPoly.C01_canonical_unique
+#print axioms LP.C01_canonical_unique_Z
+#print axioms LP.C01_canonical_unique_ZMod
